@@ -42,15 +42,15 @@ CHECKS = {
          "TLC enumerates every KKT pattern (free / at lower / at upper per coordinate x shape x x0 placement x scaling x point count x conditioning); instances are built so that the optimality conditions hold by construction at a known x*; the real solver (default budget) runs under the recorder, the trace is validated against DfolsTrace.tla and the final clauses require feasibility, the success flag and obj - f* <= 1e-6(1+f*). TLA+ does not decide convergence: exploration level.",
          "patterns enumerated for n <= 3 (quick) / 4 (thorough), dimensions 8-13 sampled, face classes (start on the active face, warm start) at dimensions 4-6; cond <= 1e3; optimum known by construction; one known finding (linear-algebra exit at the optimum with many active bounds)", "5 C05 and 2.4"),
  "C06": ("exploration", "Problems.tla subgradient-pattern enumeration -> constructed regularised optimum -> validated solver trace",
-         "As C05 for l1 / l2-norm regularisers (positive / negative / zero-strict / zero-at-kink / bound-active patterns), lambda over 3 decades, argsh/argsprox pass-through checked; final clauses: objective within 1e-3(1+F*), success flag.",
+         "As C05 for l1 / l2-norm regularisers (positive / negative / zero-strict / zero-at-kink / bound-active patterns), lambda over 3 decades (the special class strong_regulariser: 3-4 decades above |A|^2), soft restarts that append points, argsh/argsprox pass-through checked; final clauses: objective within 1e-3(1+F*), success flag.",
          "n <= 3, cond <= 1e2; the success-flag clause has one known finding (slow-progress warning at the optimum)", "5 C06 and 2.4"),
  "C07": ("model_checking", "DfolsApi.tla decision tables replayed state by state into dfols.solve (R-Api) + Dfols.tla flag/termination + restart corpus",
          "TLC enumerates every argument-class combination (in the code's validation order), every key x value class of the 71 user parameters and the unknown key, with the predicted outcome; each state is one real solve call whose outcome must match. The control model proves the returned flag documented on every path and termination under fairness (this found F-24); restart-heavy real runs are validated for documented flags.",
          "key table transcribed once into the specification; None values are not a class", "5 C07"),
- "C12": ("exploration", "Kernels.tla class-pattern enumeration -> concretised trsbox calls -> contract clauses in the trace specification (+ every in-solver call)",
+ "C12": ("exploration", "Kernels.tla class-pattern enumeration -> concretised trsbox calls -> contract clauses in the trace specification (+ every in-solver call); Trsbox.tla (kernel machine) model-checked and monitored calls of the real kernel validated snapshot by snapshot (TrsboxTrace.tla)",
          "Exhaustive class patterns (position of each coordinate w.r.t. its bounds x gradient sign x Hessian kind) for n <= 2/3, sampled to n = 8, several scalings each; contract classes (box, norm, model decrease, Cauchy decrease, gradient identity) computed in binary64 by the harness and evaluated by DfolsTrace.tla; the same clauses judge every trsbox call observed inside recorded solver runs.",
          "explored domain |xopt| <= 100*delta; clauses allow for the rounding of d = (xopt+d)-xopt only; in-solver calls judged inside the scale domain 1e-8 <= |g|, delta <= 1e8, |H|*delta <= 1e8*|g|", "5 C12"),
- "C13": ("exploration", "Kernels.tla class patterns -> trsbox_geometry / ctrsbox_* calls and in-solver regularised steps -> contract clauses",
+ "C13": ("exploration", "Kernels.tla class patterns -> trsbox_geometry / ctrsbox_* calls and in-solver regularised steps -> contract clauses; Sfista.tla (iteration-count machine of the regularised step solver) model-checked and bound to monitored calls (conformance notes)",
          "As C12 for the geometry solver (box to 1e-12, ball, global maximum against a bisection oracle, never worse than the zero step), the convex step kernels (norm bound) and the regularised step handed to the main loop (predicted reduction recomputed with the code's formula, observed in real regularised runs with bounds and with projections).",
          "gradient components 0 or >= 1e-10", "5 C13"),
  "C14": ("model_checking", "InitSet.tla exact lattice transcription, R-Init exact replay; DirGen.tla active-set patterns replayed into the generators",
